@@ -226,6 +226,11 @@ func (p *Prompt) MultilineColumnPrint() {
 		}
 
 		fmt.Print(column)
+
+	default:
+		// No column to print, but the caller has moved the cursor on the first
+		// line of the buffer, and expects it on the last one when we are done.
+		fmt.Print(strings.Repeat("\n", p.line.Lines()))
 	}
 }
 
